@@ -524,13 +524,24 @@ def main(rep):
             got, errs = run_mode(flat, mode, 3, nchildren=8 if mode == 'rt' else 2)
             for e in errs:
                 rep.error('C10 child: ' + e[-1500:])
+            fam = lambda res: [(o['r'], o['val']) for o in res['obs']
+                               if o['r'] in ('a', 'c') and o['kind'] == 'rand']
+            noise_of = lambda res: sum(1 for o in res['obs'] if o['r'] in ('n1', 'n2', 'main')
+                                       and o['kind'] == 'rand')
+            # a real-time run cut short on a loaded machine is not an observation: such pairs are run
+            # once more on their own (no jitter, no busy threads) before the vacuity guard below applies
+            short = [x for P, Q in pairs if got.get(P['id']) and got.get(Q['id'])
+                     and (not fam(got[P['id']]) or noise_of(got[Q['id']]) < 50) for x in (P, Q)]
+            if short:
+                again, errs2 = run_mode(short, mode, 5, 0, 0, nchildren=2)
+                for e in errs2:
+                    rep.error('C10 child: ' + e[-1500:])
+                got.update(again)
             for P, Q in pairs:
                 x, y = got.get(P['id']), got.get(Q['id'])
                 if x is None or y is None:
                     continue
                 n += 1
-                fam = lambda res: [(o['r'], o['val']) for o in res['obs']
-                                   if o['r'] in ('a', 'c') and o['kind'] == 'rand']
                 fx, fy = fam(x), fam(y)
                 vals += len(fx)
                 nnoise = sum(1 for o in y['obs'] if o['r'] in ('n1', 'n2', 'main')
